@@ -81,6 +81,11 @@
     Where the automaton's "top level" differs from "outside quotes and outside <…>" (all inputs pinned as tests):
     a `"` inside `<…>`, after `>` or inside a parameter NAME is an ordinary byte (`<sip:"a>,b` splits at the comma),
     a `<` after `>` is ordinary; a `"` inside a bare URI or name token does open a quoted string.
+  * Stored values of several P-Asserted-Identity lines (`Sipsp.Proofs.PaiLines`): `pai_lines_stored`, `pai_lines_more`,
+    `pai_lines_get`, `pai_new_lines`, `block_pais`: after any number of PAI lines with one values object the stored
+    identities are the first values of ALL lines in order (two slots), `More()` ⇔ N > 2, `GetPAI 0 / 1` return them, nil
+    beyond — also inside ParseHeaders blocks, whatever headers stand between the lines; `value_nonempty`: whenever
+    ParseNameAddrPVal says OK / "more values" the reported value V has at least one byte (every input).
   NOT proved here (oracle / correspondence only): the splitting converse for resumed calls (one-call statements; C02
   transfers them); commas inside parameter names / unquoted values for From / To in
   general (ordinary bytes, except that a leading comma is dropped); the partial object left behind by the
@@ -92,6 +97,7 @@ import Sipsp.Proofs.NameAddrSpec
 import Sipsp.Proofs.NameAddrSpec2
 import Sipsp.Proofs.HdrTyped
 import Sipsp.Proofs.NaSplit
+import Sipsp.Proofs.PaiLines
 
 namespace Sipsp.C09
 open Sipsp
@@ -560,5 +566,33 @@ theorem to_value_through_hdrline : type_of% @Sipsp.ht_to_value := @Sipsp.ht_to_v
 /-- **ParseHeaders on a well-formed block with a values object**: one header per line, in order (generic and typed
     lines mixed), the values object as left by the typed lines, then the end of the block -/
 theorem block_through_parseheaders : type_of% @Sipsp.ht_parseHeaders_block := @Sipsp.ht_parseHeaders_block
+
+/-! ### stored values of several P-Asserted-Identity lines (proved in `Sipsp.Proofs.PaiLines`) -/
+
+/-- **the stored identities are the values of ALL P-Asserted-Identity lines, in order** (those that fit the array: the
+    Go type has a fixed array of two) — for any object the lines are parsed into, whatever it already holds -/
+theorem pai_lines_stored : type_of% @Sipsp.pl_lines_stored := @Sipsp.pl_lines_stored
+
+/-- **`More()`** ⇔ the lines carry more values than the array holds -/
+theorem pai_lines_more : type_of% @Sipsp.pl_lines_more := @Sipsp.pl_lines_more
+
+/-- **`GetPAI(k)`** after the lines, on an object that held no value before: the `k`-th value of all lines, for `k`
+    below the capacity; nil from `min (N, capacity)` on -/
+theorem pai_lines_get : type_of% @Sipsp.pl_lines_getPAI := @Sipsp.pl_lines_getPAI
+
+/-- **a new P-Asserted-Identity object (two slots) after any number of lines**: `GetPAI 0` / `GetPAI 1` are the first
+    two values of ALL lines in order, `More()` ⇔ more than two values, `N` counts every value, `HNo` every line -/
+theorem pai_new_lines : type_of% @Sipsp.pl_new_lines := @Sipsp.pl_new_lines
+
+/-- **the P-Asserted-Identity values of a whole header block** parsed by ParseHeaders with a values object whose
+    identity list is new: whatever other headers stand between the P-Asserted-Identity lines, `HNo` = their number,
+    `N` = the total number of their values, `GetPAI 0 / 1` = the first two values of all of them in order, `More()` ⇔
+    more than two values -/
+theorem block_pais : type_of% @Sipsp.HtBlock.pl_pais := @Sipsp.HtBlock.pl_pais
+
+/-- **a completed name-addr value is never empty**: whenever ParseNameAddrPVal, started on a new object, says OK or
+    "more values", the reported value span `V` has at least one byte — every header kind, EVERY input within the
+    65,535-byte limit -/
+theorem value_nonempty : type_of% @Sipsp.pn_value_nonempty := @Sipsp.pn_value_nonempty
 
 end Sipsp.C09
